@@ -415,7 +415,7 @@ class ProgGen:
         form = rng.choice(forms)
         s = {"id": self.sid(), "k": "probe", "x": rng.choice(["1", "2", "3", "0.5", "12", "7"]),
              "src": src, "dst": dst, "form": form, "use_def": rng.random() < 0.15}
-        if form in ("to_ctx", "compat_q", "compat_units") and rng.random() < 0.6 or form == "to_ctx":
+        if form in ("to_ctx", "compat_q", "compat_units", "ito") and rng.random() < 0.6 or form == "to_ctx":
             s["ctxs"] = self.ctx_list(faulty=rng.random() < 0.08)
             s["kw"] = self.kw() if form != "compat_units" else {}
         return s
@@ -1527,7 +1527,7 @@ class _Run:
                     got = ("val", r.magnitude, norm_units(r))
                 elif form == "ito":
                     q = ureg.Quantity(x, ssrc)
-                    q.ito(sdst)
+                    q.ito(sdst, *extra_args, **pkw)
                     got = ("val", q.magnitude, norm_units(q))
                 elif form == "convert":
                     got = ("val", ureg.convert(x, ssrc, sdst), None)
